@@ -12,6 +12,24 @@ CHECKS = {
   design_ref="DESIGN.md §4 C11",
   note="Trusted: Lean kernel, propext/Classical.choice/Quot.sound, py2lean translator (self-checked per run against the Python operators on random blocks), float ~ rational within 1e-9.",
   technique="Lean 4 proof over a model regenerated from source by py2lean (+ translator self-check)"),
+ "C01": dict(
+  category="proof",
+  text="Lean 4 theorem resume_eq_straight over a model of BasicOperationEngine/SimulationHistory/handlers that is parametric in the play function, the store, the checkpoint type, the clock, the debug view and the hash: for EVERY plan and cut, reload + continue yields the logs of the uninterrupted run; nothing_else_matters: engines with equal logs are bisimilar. The hypothesis StoreLaws (all that influences the future is in the saved store) is validated on the real code: checkpoint round trips of every reached store and every-cut resumed runs (memory and JSON) for all 8 jobs; the model is tied to the engine by replaying it over play tables recorded from real runs.",
+  design_ref="DESIGN.md §4 C01",
+  note="Trusted: Lean kernel + standard axioms; hand model tied by recorded-table replay; StoreLaws hypothesis (validated, not proved); pydantic dump/validate and json; unknown command words / ELAPSE without time outside the model.",
+  technique="Lean 4 proof (invariant + induction over commands) on a hand-written engine model + differential correspondence"),
+ "C03": dict(
+  category="proof",
+  text="Lean 4 theorems over the same parametric engine model: rollback_replay (any interleaving of exec/rollback leaves exactly the history of a fresh engine that ran the surviving commands, and the canonical engine state), chain_ok, hashes_distinct, hash_locates/hash_index_sound for get_hash_index (with an injective never-empty hash combiner). Validated on the real engine exhaustively for all exec/rollback programs up to a depth over a 4-command alphabet and on random programs for all jobs, against a fresh reference engine after every step, with independent sha1 recomputation.",
+  design_ref="DESIGN.md §4 C03",
+  note="Trusted: Lean kernel + standard axioms; hand model tied by recorded-table replay; StoreLaws; sha1 collision freedom.",
+  technique="Lean 4 proof (induction over op sequences, hash-chain invariant) + differential correspondence"),
+ "C12": dict(
+  category="proof",
+  text="Lean 4 theorems over definitions regenerated from simaple/core/damage.py, core/base.py and report/dpm.py on every run: monotonicity of the damage and DOT factors of all five damage logics in every beneficial stat (armour term non-negative), linearity in damage% and hits, cooldown never above base / never below the documented floors / antitone in flat and percent reduction for all base cooldowns, level advantage total on all integer pairs, within [0,1.2], antitone in the gap. Exhaustive level pairs and dense cooldown grids are compared with the real functions.",
+  design_ref="DESIGN.md §4 C12",
+  note="Trusted: Lean kernel + standard axioms; py2lean translator (self-checked per run); float ~ rational within 1e-9.",
+  technique="Lean 4 proof over a model regenerated from source by py2lean (+ translator self-check)"),
 }
 
 NOT_YET = "check not built yet in this round (work in progress; see DESIGN.md §6 build order)"
